@@ -7,9 +7,11 @@
      X     Stats             R    restart (restore (save s)): not an op of the model's alphabet
      U dt  Advance (clock only, no handletimeouts sweep)   Y jid,jid  Drop (rpc_qdrop)   G  Watchdog (dropdead)
    jid = a<n> (auto/int id) | n<n> (client string id).
-   Second mode:  driver.exe enum <depth> <maxstates>  : breadth-first exploration of the model's
-   state graph over the bounded alphabet (see `alphabet`), prints one representative history per
-   (distinct state, op) pair. *)
+   Second mode:  driver.exe enum small|full <depth> <maxjobs> <maxstates> [shard k n] [budget B] [prefix P]
+   breadth-first exploration of the model's state graph over the bounded alphabet (see `alphabet`) modulo the
+   symmetries described at `canon`; prints one concrete history per (canonical state, op) pair on stdout, per-depth
+   counts and a final JSON line on stderr.
+   Third mode:   driver.exe enumcheck small|full <depth> <maxjobs>   self test of the symmetry reduction. *)
 open C16_model
 let rec pos_of_int i = if i = 1 then XH else if i land 1 = 1 then XI (pos_of_int (i lsr 1)) else XO (pos_of_int (i lsr 1))
 let n_of_int i = if i = 0 then N0 else Npos (pos_of_int i)
@@ -115,71 +117,335 @@ let op_t = function
   | Drop js -> "Y " ^ (if js = [] then "-" else String.concat "," (List.map jid_t js))
   | Watchdog -> "G"
 
-(* bounded alphabet of the property's quantifier: 2 channels, <= maxjobs jobs, 3 workers; symmetry reduction:
-   worker k+1 is used only after worker k was used; client id n1 only after n0; the second channel only after
-   the first; Choice only when it matters (two or more blocked pullers). *)
-let alphabet ~full maxjobs (s : state) : op list =
+(* ================================================================ bounded exploration (enum / enumcheck)
+
+   ALPHABET (the property's quantifier: 2 channels, <= maxjobs jobs, 3 workers = connection ids 1,2,3).
+   Other connection ids: 4 = a client that never pulls (issues Kill and the "somebody else reports the job
+   finished" Finish); 5,6 = clients that only Wait (full mode).  A connection that is Idle with an empty
+   running list and is mentioned neither in _waiters nor in the hub queue is indistinguishable from one that
+   was never seen (Model.get_conn returns new_conn for an absent id), so it counts as UNUSED.
+
+   [sym = true] picks ONE representative among interchangeable fresh things (smallest unused worker id, channel
+   0 when no channel occurs in the state, smallest unused client name, first free waiter connection);
+   [sym = false] (only used by `enumcheck`) offers all of them.  Everything else is the same in both. *)
+
+let uniq l = List.sort_uniq compare l
+let idle_empty c = (match c.c_st with Idle -> true | _ -> false) && c.c_run = []
+let hub_conns s = List.filter_map (function EvNotify c | EvKill c -> Some (ni c) | EvDone _ -> None) s.s_hub
+let used_conns s =
+  uniq (List.map (fun (c, _) -> ni c) s.s_waiters @ hub_conns s
+        @ List.filter_map (fun c -> if idle_empty c then None else Some (ni c.c_id)) s.s_conns)
+
+(* serials a future step can still look at; queue and timeout-queue entries of finished jobs are inert
+   (preen / timeouts_loop / count_undone skip them) and do not count *)
+let reachable_serials s =
+  let undone (_, ser) = not (is_done s.s_jobs ser) in
+  uniq (List.map (fun (_, ser) -> ni ser) s.s_ids
+        @ List.concat_map (fun (_, q) -> List.map (fun (_, ser) -> ni ser) (List.filter undone q)) s.s_queues
+        @ List.map (fun (_, (_, ser)) -> ni ser) (List.filter (fun (_, k) -> undone k) s.s_tq)
+        @ List.concat_map (fun c -> List.map (fun (_, ser) -> ni ser) c.c_run
+                                   @ (match c.c_st with BPull (_, Some ser) -> [ni ser] | BWait ser -> [ni ser] | _ -> [])) s.s_conns
+        @ List.filter_map (function EvDone ser -> Some (ni ser) | _ -> None) s.s_hub)
+
+let retained_jobs s =
+  let r = reachable_serials s in
+  List.sort (fun a b -> compare (ni a.j_serial) (ni b.j_serial)) (List.filter (fun j -> List.mem (ni j.j_serial) r) s.s_jobs)
+
+let chans_in s rj =
+  uniq (List.map (fun j -> ni j.j_chan) rj @ List.map (fun (k, _) -> ni k) s.s_queues @ List.map (fun (k, _) -> ni k) s.s_cnt
+        @ List.concat_map (fun (_, chs) -> List.map ni chs) s.s_waiters
+        @ List.concat_map (fun c -> match c.c_st with BPull (chs, _) -> List.map ni chs | _ -> []) s.s_conns)
+
+let names_in s rj =
+  let nm = function JName k -> [ni k] | JAuto _ -> [] in
+  uniq (List.concat_map (fun j -> nm j.j_id) rj @ List.concat_map (fun (i, _) -> nm i) s.s_ids
+        @ List.concat_map (fun c -> List.concat_map (fun (i, _) -> nm i) c.c_run) s.s_conns)
+
+let alphabet ~full ~sym maxjobs (s : state) : op list =
   let n = n_of_int in
-  let nconn = List.length s.s_conns in
-  let workers = List.filteri (fun i _ -> i <= nconn) [1; 2; 3] in
-  let chans_used = List.sort_uniq compare (List.map (fun j -> ni j.j_chan) s.s_jobs
-                   @ List.concat_map (fun (_, chs) -> List.map ni chs) s.s_waiters) in
-  let chans = if chans_used = [] then [0] else [0; 1] in
-  let names_used = List.sort_uniq compare (List.filter_map (fun (i, _) -> match i with JName k -> Some (ni k) | _ -> None) s.s_ids) in
-  let names = names_used @ [List.length names_used] in
-  let names = List.filter (fun k -> k <= 1) names in
-  let njobs = List.length s.s_jobs in
+  let rj = retained_jobs s in
+  let used = used_conns s in
+  let wused = List.filter (fun c -> c >= 1 && c <= 3) used in
+  let wfree = List.filter (fun c -> not (List.mem c wused)) [1; 2; 3] in
+  let wfresh = if sym then (match wfree with [] -> [] | x :: _ -> [x]) else wfree in
+  let idle w = is_idle (n w) s in
+  let conn w = get_conn s.s_conns (n w) in
+  let chans = if sym && chans_in s rj = [] then [0] else [0; 1] in
+  let nused = names_in s rj in
+  let nfree = List.filter (fun k -> not (List.mem k nused)) [0; 1] in
+  let names = if sym then nused @ (match nfree with [] -> [] | x :: _ -> [x]) else [0; 1] in
+  let njobs = ni s.s_count in
   let ids = List.map fst s.s_ids in
+  let room = njobs < maxjobs in
   let adds =
     List.concat_map (fun ch ->
       List.concat_map (fun prio ->
-        (if njobs < maxjobs then [Add (n ch, n prio, None, None)] @ (if full then [Add (n ch, n prio, None, Some (n 5))] else []) else [])
+        (if room then [Add (n ch, n prio, None, None)] @ (if full then [Add (n ch, n prio, None, Some (n 5))] else []) else [])
         @ List.concat_map (fun nm ->
-            let exists = List.mem nm names_used in
-            if exists || njobs < maxjobs then [Add (n ch, n prio, Some (n nm), if full && prio = 0 then Some (n 5) else None)] else []) names)
+            let live = match id_lookup s.s_ids (JName (n nm)) with
+              | Some ser -> (match getjob s.s_jobs ser with Some j -> not (err_is_killed j.j_err) | None -> false)
+              | None -> false in
+            if live then (if ch = 0 && prio = 0 then [Add (n 0, n 0, Some (n nm), None)] else [])   (* push returns the existing job whatever channel/priority *)
+            else if room then [Add (n ch, n prio, Some (n nm), if full && prio = 0 then Some (n 5) else None)] else []) names)
         [0; 1]) chans in
-  let pulls = List.concat_map (fun w -> List.map (fun chs -> StartPull (n w, List.map n chs))
-                ([[]; [0]] @ (if List.length chans > 1 then [[1]] @ (if full then [[0; 1]] else []) else []))) workers in
-  let fins = List.concat_map (fun w -> List.concat_map (fun i ->
-                 [Finish (n w, i, Some (n 7), ENone)] @ (if full then [Finish (n w, i, None, EStr (n 0)); Finish (n w, i, None, EStr (n 3))] else [])) ids) workers in
-  let kills = List.map (fun i -> Kill (n 3, [i])) ids in
-  let ticks = [Tick (n 6)] @ (if full then [Tick (n 200)] else []) in
-  let discs = List.map (fun w -> Disconnect (n w)) (List.filter (fun w -> w <= nconn) [1; 2; 3]) in
+  let pullsets = [[]; [0]] @ (if List.length chans > 1 then [[1]] else []) @ (if full then [[0; 1]] else []) in
+  let pulls = List.concat_map (fun w -> List.map (fun chs -> StartPull (n w, List.map n chs)) pullsets)
+                (List.filter idle wused @ wfresh) in
+  let holders i = List.filter (fun w -> idle w && List.exists (fun (k, _) -> jid_eqb k i) (conn w).c_run) wused in
+  let fin_variants c i = [Finish (n c, i, Some (n 7), ENone)]
+                         @ (if full then [Finish (n c, i, None, EStr (n 0)); Finish (n c, i, None, EStr (n 3))] else []) in
+  let fins = List.concat_map (fun i -> List.concat_map (fun c -> fin_variants c i) (holders i @ [4])) ids in
+  let kills = List.concat_map (fun i -> [Kill (n 4, [i])] @ (if full then List.map (fun w -> Kill (n w, [i])) (holders i) else [])) ids in
+  let ticks = if full then [Tick (n 6); Tick (n 200)] else [Tick (n 120)] in
+  let kill_pending w = List.exists (function EvKill c -> ni c = w | _ -> false) s.s_hub in
+  let discs = List.filter_map (fun w -> match (conn w).c_st with Dead -> None | _ -> if kill_pending w then None else Some (Disconnect (n w))) wused in
   let choice = if List.length s.s_waiters >= 2 && s.s_choices = [] then [Choice (n 1)] @ (if List.length s.s_waiters >= 3 then [Choice (n 2)] else []) else [] in
-  let waits = if full then List.concat_map (fun i -> [Wait (n 3, i)]) ids @ [Stats] else [] in
-  adds @ pulls @ [RunLoop] @ fins @ kills @ ticks @ discs @ choice @ waits
+  let busy = match List.filter (fun w -> not (idle w)) wused with [] -> [] | w :: _ -> [StartPull (n w, [])] in
+  let extra =
+    if not full then [] else begin
+      let wfree = List.filter idle [5; 6] in
+      let wconn = if sym then (match wfree with [] -> [] | x :: _ -> [x]) else wfree in
+      List.concat_map (fun i -> List.map (fun c -> Wait (n c, i)) wconn) ids @ [Stats] @ List.map (fun i -> Drop [i]) ids
+    end in
+  adds @ pulls @ [RunLoop] @ fins @ kills @ ticks @ discs @ choice @ busy @ extra
 
-let enum full depth maxjobs maxstates =
-  let seen = Hashtbl.create 100000 in
-  let strip s = { s with s_handed = []; s_requeued = [] } in
-  Hashtbl.replace seen (strip init) ();
+(* CANONICAL FORM.  canon s = canon s' implies: s and s' are related by
+     - a permutation of connection ids,
+     - optionally the swap of channels 0 and 1,
+     - a permutation of the client-chosen names n0/n1,
+     - a shift of all absolute times (s_now, job deadlines, timeout-queue deadlines),
+   after forgetting what no step ever reads: the ghosts s_handed/s_requeued, the order of the association lists
+   s_jobs/s_ids/s_queues/s_cnt/s_conns (looked up by key only; s_conns order shows only in the order of `released`
+   outputs of one loop turn, which the comparison sorts), the order inside a channel list of a puller (used through
+   mem / min only), Idle connections with an empty running list, queue and timeout-queue entries of finished jobs,
+   job objects no id/queue/mailbox/running list/waiter/hub event refers to, and - only when [obs] is false, i.e. when the
+   alphabet has no Wait/Info op that prints a finished job - the timeout field of finished jobs.
+   Serials are NOT renamed (queue order = serial order, server-chosen ids = serials), s_count (= number of jobs
+   created) is kept, counters are kept.
+   The labelling of connections is canonical: waiters in _waiters order, then connections in hub-event order, then
+   the remaining ones sorted by their (already renamed) contents; connections with identical contents are
+   interchangeable.  Names: order of first occurrence among the retained jobs by serial.  Channels: both
+   renderings are computed and the smaller one is taken. *)
+type cform = {
+  k_count : int; k_jobs : int list list; k_ids : (int * int * int) list; k_queues : (int * (int * int) list) list;
+  k_waiters : (int * int list) list; k_conns : (int * int list * (int * int * int) list) list; k_tq : (int * int * int) list;
+  k_cnt : (int * int list) list; k_choices : int list; k_hub : (int * int) list }
+
+let canon_with ~obs (s : state) (rj : job list) (chm : int -> int) : cform =
+  let now = ni s.s_now in
+  let names = ref [] in
+  List.iter (fun j -> match j.j_id with JName k -> if not (List.mem_assoc (ni k) !names) then names := (ni k, List.length !names) :: !names | _ -> ()) rj;
+  let jid = function JAuto k -> (0, ni k) | JName k -> (1, (try List.assoc (ni k) !names with Not_found -> 100 + ni k)) in
+  let optn = function None -> -1 | Some x -> ni x in
+  let errn = function ENone -> -1 | EStr k -> ni k in
+  let undone (_, ser) = not (is_done s.s_jobs ser) in
+  let chs_c l = List.sort compare (List.map (fun c -> chm (ni c)) l) in
+  let job_c j =
+    let (a, b) = jid j.j_id in
+    [ni j.j_serial; a; b; chm (ni j.j_chan); ni j.j_prio; (if j.j_done && not obs then 0 else ni j.j_timeout - now);
+     (if j.j_done then 1 else 0); errn j.j_err; optn j.j_res; optn j.j_info; ni j.j_ttl;
+     (match j.j_dl with None -> min_int | Some d -> ni d - now); (if j.j_drop then 1 else 0)] in
+  let run_c l = List.sort compare (List.map (fun (i, ser) -> let (a, b) = jid i in (a, b, ni ser)) l) in
+  let st_c = function
+    | Idle -> [0]
+    | BPull (chs, mb) -> 1 :: optn mb :: chs_c chs
+    | BWait ser -> [2; ni ser]
+    | Dead -> [3] in
+  let lab = ref [] in
+  let touch c = if not (List.mem_assoc c !lab) then lab := (c, List.length !lab + 1) :: !lab in
+  List.iter (fun (c, _) -> touch (ni c)) s.s_waiters;
+  List.iter touch (hub_conns s);
+  let live = List.filter (fun c -> not (idle_empty c)) s.s_conns in
+  let rest = List.filter (fun c -> not (List.mem_assoc (ni c.c_id) !lab)) live in
+  let rest = List.sort compare (List.map (fun c -> ((st_c c.c_st, run_c c.c_run), ni c.c_id)) rest) in
+  List.iter (fun (_, c) -> touch c) rest;
+  let l c = List.assoc (ni c) !lab in
+  { k_count = ni s.s_count;
+    k_jobs = List.map job_c rj;
+    k_ids = List.sort compare (List.map (fun (i, ser) -> let (a, b) = jid i in (a, b, ni ser)) s.s_ids);
+    k_queues = List.sort compare (List.map (fun (k, q) -> (chm (ni k), List.map (fun (p, ser) -> (ni p, ni ser)) (List.filter undone q))) s.s_queues);
+    k_waiters = List.map (fun (c, chs) -> (l c, chs_c chs)) s.s_waiters;
+    k_conns = List.sort compare (List.map (fun c -> (l c.c_id, st_c c.c_st, run_c c.c_run)) live);
+    k_tq = List.map (fun (d, (p, ser)) -> (ni d - now, ni p, ni ser)) (List.filter (fun (_, k) -> undone k) s.s_tq);
+    k_cnt = List.sort compare (List.map (fun (k, c) -> (chm (ni k), [ni c.n_error; ni c.n_timeout; ni c.n_killed; ni c.n_success])) s.s_cnt);
+    k_choices = List.map ni s.s_choices;
+    k_hub = List.map (function EvNotify c -> (0, l c) | EvKill c -> (1, l c) | EvDone ser -> (2, ni ser)) s.s_hub }
+
+let canon ~obs s =
+  let rj = retained_jobs s in
+  let a = canon_with ~obs s rj (fun c -> c) in
+  let b = canon_with ~obs s rj (fun c -> if c = 0 then 1 else if c = 1 then 0 else c) in
+  if compare a b <= 0 then a else b
+
+let digest_of x = Digest.string (Marshal.to_string x [Marshal.No_sharing])
+let key_reduced ~obs s = digest_of (canon ~obs s)
+let key_plain s = digest_of { s with s_handed = []; s_requeued = [] }
+
+let json_ints l = "[" ^ String.concat "," (List.map string_of_int l) ^ "]"
+
+(* breadth-first exploration.  [seen] holds 16-byte digests only; the frontier holds one concrete representative state
+   per new canonical state with the (reversed) concrete history that reached it.  One history is printed per
+   (canonical state of depth d-1, op) pair - except when a print budget is given and the estimated number of pairs of a
+   depth exceeds the share of the budget left for it: then every stride-th pair of that depth is printed (the pairs are
+   all enumerated and counted).  With `shard k n`, depths <= prefix are explored by every shard (printed by shard 0
+   only) and the depth-`prefix` frontier is dealt round-robin. *)
+let enum ~full ~depth ~maxjobs ~maxstates ~shard ~budget ~prefix =
+  let obs = full in
+  let seen = Hashtbl.create 1000003 in
+  Hashtbl.replace seen (key_reduced ~obs init) ();
   let frontier = ref [ (init, []) ] in
-  let total = ref 0 in
-  let d = ref 0 in
   let truncated = ref false in
+  let states_pd = ref [] and trans_pd = ref [] and printed_pd = ref [] and stride_pd = ref [] and front_pd = ref [] in
+  let printed_total = ref 0 in
+  let (sk, sn) = shard in
+  let d = ref 0 in
+  let branching = ref 10.0 in
+  let buf = Buffer.create 65536 in
   while !d < depth && !frontier <> [] do
     incr d;
-    let next = ref [] in
+    let nfront = List.length !frontier in
+    let est = int_of_float (float_of_int nfront *. !branching) in
+    let stride =
+      if budget <= 0 then 1 else begin
+        let left = max 0 (budget - !printed_total) in
+        if est <= left then 1 else begin
+          let share = max 1 (left / (depth - !d + 1)) in
+          (est + share - 1) / share
+        end
+      end in
+    let printing = sn <= 1 || !d > prefix || sk = 0 in
+    let last = !d = depth in
+    let next = ref [] and ntrans = ref 0 and nnew = ref 0 and nprinted = ref 0 in
     List.iter (fun (s, h) ->
       List.iter (fun o ->
-        let (s', _) = step s o in
         let h' = o :: h in
-        incr total;
-        print_string (String.concat ";" (List.rev_map op_t h') ^ "\n");
-        let k = strip s' in
-        if not (Hashtbl.mem seen k) then begin
-          if Hashtbl.length seen < maxstates then begin
-            Hashtbl.replace seen k ();
-            next := (s', h') :: !next
-          end else truncated := true
-        end) (alphabet ~full maxjobs s)) !frontier;
-    frontier := List.rev !next;
-    prerr_string (Printf.sprintf "depth %d: transitions so far %d, distinct states %d, frontier %d%s\n" !d !total (Hashtbl.length seen) (List.length !frontier) (if !truncated then " TRUNCATED" else ""))
-  done
+        if printing && !ntrans mod stride = 0 then begin
+          incr nprinted;
+          Buffer.clear buf;
+          List.iteri (fun i x -> if i > 0 then Buffer.add_char buf ';'; Buffer.add_string buf (op_t x)) (List.rev h');
+          Buffer.add_char buf '\n';
+          print_string (Buffer.contents buf)
+        end;
+        incr ntrans;
+        if not last then begin
+          let (s', _) = step s o in
+          let k = key_reduced ~obs s' in
+          if not (Hashtbl.mem seen k) then begin
+            if Hashtbl.length seen < maxstates then begin
+              Hashtbl.replace seen k ();
+              incr nnew;
+              next := (s', h') :: !next
+            end else truncated := true
+          end
+        end) (alphabet ~full ~sym:true maxjobs s)) !frontier;
+    if nfront > 0 && !ntrans > 0 then branching := float_of_int !ntrans /. float_of_int nfront;
+    let nx = List.rev !next in
+    let nx = if sn > 1 && !d = prefix then List.filteri (fun i _ -> i mod sn = sk) nx else nx in
+    frontier := nx;
+    printed_total := !printed_total + !nprinted;
+    states_pd := (if last then -1 else !nnew) :: !states_pd; trans_pd := !ntrans :: !trans_pd;
+    printed_pd := !nprinted :: !printed_pd; stride_pd := stride :: !stride_pd; front_pd := List.length nx :: !front_pd;
+    prerr_string (Printf.sprintf "depth %d: new canonical states %s, transitions %d (printed %d, stride %d), frontier %d, cumulative states %d%s\n"
+                    !d (if last then "n/a (last depth: successors not computed)" else string_of_int !nnew) !ntrans !nprinted stride
+                    (List.length nx) (Hashtbl.length seen) (if !truncated then " TRUNCATED" else ""));
+    flush stderr
+  done;
+  flush stdout;
+  prerr_string (Printf.sprintf "{\"mode\":\"%s\",\"depth\":%d,\"maxjobs\":%d,\"states_per_depth\":%s,\"transitions_per_depth\":%s,\"printed_per_depth\":%s,\"stride_per_depth\":%s,\"frontier_per_depth\":%s,\"states_total\":%d,\"shard\":[%d,%d],\"prefix\":%d,\"truncated\":%s}\n"
+                  (if full then "full" else "small") !d maxjobs (json_ints (List.rev !states_pd)) (json_ints (List.rev !trans_pd))
+                  (json_ints (List.rev !printed_pd)) (json_ints (List.rev !stride_pd)) (json_ints (List.rev !front_pd))
+                  (Hashtbl.length seen) sk sn prefix (bool_s !truncated))
+
+(* self test of the reduction: the plain exploration (key = the state itself minus the two ghost lists, alphabet without
+   the "one representative of the fresh things" choice) against the reduced one.
+   (1) for every depth k the set of canonical forms of the plain states first reached at depth k must be the set of canonical
+       states the reduced exploration first reaches at depth k;
+   (2) every plain transition (s, op, outputs, s') must have a reduced transition with the same
+       (canon s, signature of the outputs, canon s'), where the signature forgets connection ids, channel numbers, client names
+       and absolute times (kinds of the outputs, serials and the other fields of the job records, counter values): states that
+       are merged although they answer differently would show up here. *)
+let out_sig (outs : out list) =
+  let optn = function None -> -1 | Some x -> ni x in
+  let job_g j = [ni j.j_serial; ni j.j_prio; (if j.j_done then 1 else 0); (match j.j_err with ENone -> -1 | EStr k -> ni k);
+                 optn j.j_res; optn j.j_info; ni j.j_ttl; (if j.j_drop then 1 else 0)] in
+  List.sort compare (List.map (function
+    | OJid (JAuto k) -> [0; ni k] | OJid (JName _) -> [0; -1]
+    | OBlocked -> [1]
+    | ODeliver (_, chs, j) -> 2 :: List.length chs :: job_g j
+    | OReleased (_, j) -> 3 :: job_g j
+    | ODied _ -> [4] | OBusy -> [5] | OKeyErr -> [6] | OUnit -> [7]
+    | OInfo None -> [8] | OInfo (Some j) -> 8 :: job_g j
+    | OStats (c, nj, cnt, busy) ->
+      9 :: ni c :: ni nj :: List.concat (List.sort compare (List.map (fun (_, v) -> [ni v.n_error; ni v.n_timeout; ni v.n_killed; ni v.n_success]) cnt))
+      @ (-2 :: List.sort compare (List.map (fun (_, v) -> ni v) busy))) outs)
+
+let enumcheck ~full ~depth ~maxjobs =
+  let obs = full in
+  let explore ~sym ~key ~on_state ~on_trans =
+    let seen = Hashtbl.create 100003 in
+    Hashtbl.replace seen (key init) ();
+    on_state 0 init [];
+    let frontier = ref [(init, [])] and ntr = ref [] and nst = ref [] in
+    for d = 1 to depth do
+      let next = ref [] and t = ref 0 in
+      List.iter (fun (s, h) ->
+        let cs = canon ~obs s in
+        List.iter (fun o ->
+          incr t;
+          let (s', outs) = step s o in
+          on_trans cs outs s' (o :: h);
+          let k = key s' in
+          if not (Hashtbl.mem seen k) then begin Hashtbl.replace seen k (); on_state d s' (o :: h); next := (s', o :: h) :: !next end)
+          (alphabet ~full ~sym maxjobs s)) !frontier;
+      frontier := List.rev !next; ntr := !t :: !ntr; nst := List.length !frontier :: !nst
+    done;
+    (List.rev !nst, List.rev !ntr) in
+  let tkey cs outs s' = digest_of (cs, out_sig outs, canon ~obs s') in
+  let red = Hashtbl.create 100003 in                (* canonical digest -> depth of first visit, reduced exploration *)
+  let redt = Hashtbl.create 100003 in               (* transition digests of the reduced exploration *)
+  let (rs, rt) = explore ~sym:true ~key:(key_reduced ~obs) ~on_state:(fun d s _ -> Hashtbl.replace red (key_reduced ~obs s) d)
+      ~on_trans:(fun cs outs s' _ -> Hashtbl.replace redt (tkey cs outs s') ()) in
+  let pl = Hashtbl.create 100003 in                 (* canonical digest -> least depth, plain exploration *)
+  let plt = Hashtbl.create 100003 in
+  let (ps, pt) = explore ~sym:false ~key:key_plain ~on_state:(fun d s h ->
+      let k = key_reduced ~obs s in if not (Hashtbl.mem pl k) then Hashtbl.replace pl k (d, h))
+      ~on_trans:(fun cs outs s' h -> let k = tkey cs outs s' in if not (Hashtbl.mem plt k) then Hashtbl.replace plt k h) in
+  let missing = ref 0 and deeper = ref 0 and extra = ref 0 and tmissing = ref 0 and textra = ref 0 in
+  let show h = String.concat ";" (List.rev_map op_t h) in
+  Hashtbl.iter (fun k (d, h) -> match Hashtbl.find_opt red k with
+      | None -> incr missing; if !missing <= 5 then Printf.printf "missing from reduced: %s\n" (show h)
+      | Some d' -> if d' <> d then begin incr deeper; if !deeper <= 5 then Printf.printf "plain depth %d, reduced depth %d: %s\n" d d' (show h) end) pl;
+  Hashtbl.iter (fun k _ -> if not (Hashtbl.mem pl k) then incr extra) red;
+  Hashtbl.iter (fun k h -> if not (Hashtbl.mem redt k) then begin incr tmissing; if !tmissing <= 5 then Printf.printf "transition missing from reduced: %s\n" (show h) end) plt;
+  Hashtbl.iter (fun k _ -> if not (Hashtbl.mem plt k) then incr textra) redt;
+  Printf.printf "plain   : states per depth %s transitions per depth %s\n" (json_ints ps) (json_ints pt);
+  Printf.printf "reduced : states per depth %s transitions per depth %s\n" (json_ints rs) (json_ints rt);
+  Printf.printf "canonical forms of plain states: %d; reduced states: %d; missing from reduced: %d; found at another depth: %d; reduced but not plain: %d\n"
+    (Hashtbl.length pl) (Hashtbl.length red) !missing !deeper !extra;
+  Printf.printf "distinct (canonical state, output signature, canonical successor) of plain transitions: %d; of reduced transitions: %d; plain not in reduced: %d; reduced not in plain: %d\n"
+    (Hashtbl.length plt) (Hashtbl.length redt) !tmissing !textra;
+  let ok = !missing = 0 && !deeper = 0 && !extra = 0 && !tmissing = 0 && !textra = 0 in
+  print_string (if ok then "OK\n" else "FAILED\n");
+  if not ok then exit 1
 
 let () =
-  if Array.length Sys.argv > 1 && Sys.argv.(1) = "enum" then
-    enum (Sys.argv.(2) = "full") (int_of_string Sys.argv.(3)) (int_of_string Sys.argv.(4)) (int_of_string Sys.argv.(5))
+  let argv = Sys.argv in
+  let argc = Array.length argv in
+  if argc > 1 && argv.(1) = "enum" then begin
+    (* driver.exe enum small|full <depth> <maxjobs> <maxstates> [shard k n] [budget B] [prefix P] *)
+    let shard = ref (0, 1) and budget = ref 0 and prefix = ref 3 in
+    let i = ref 6 in
+    while !i < argc do
+      (match argv.(!i) with
+       | "shard" -> shard := (int_of_string argv.(!i + 1), int_of_string argv.(!i + 2)); i := !i + 3
+       | "budget" -> budget := int_of_string argv.(!i + 1); i := !i + 2
+       | "prefix" -> prefix := int_of_string argv.(!i + 1); i := !i + 2
+       | x -> prerr_string ("bad argument " ^ x ^ "\n"); exit 2)
+    done;
+    enum ~full:(argv.(2) = "full") ~depth:(int_of_string argv.(3)) ~maxjobs:(int_of_string argv.(4))
+      ~maxstates:(int_of_string argv.(5)) ~shard:!shard ~budget:!budget ~prefix:!prefix
+  end else if argc > 1 && argv.(1) = "enumcheck" then
+    enumcheck ~full:(argv.(2) = "full") ~depth:(int_of_string argv.(3)) ~maxjobs:(int_of_string argv.(4))
   else begin
     let st = ref init in
     try while true do
